@@ -48,7 +48,7 @@ D = {
             "schedules are sampled and perturbed through the verif hook, not enumerated; three listed known findings (massive mkdir atomicity / exist check, mixed list+heading roots) are excluded by classifier and probed on every run",
             PBT + ": differential testing (massive vs simple) under generated schedule perturbations"),
     "C11": ("fault_enumeration",
-            "Every massive-mode call runs in a worker with a hang watchdog (blocked-goroutine confirmation) and a goroutine-leak scan; documents with 0..12 failing blocks at drawn stages x reader/writer/callback failure at an index x cancellation (before, inside the Read crossing byte k, timer, deadline, at a write, at a callback) x perturbed schedules. Enumerated: every cancel offset, reader offset, writer index and callback index of a panel of documents. The same scenarios under -race. Also worker processes started with GOMAXPROCS=1 and confined to one CPU (taskset), readers that are io.Closer / *bufio.Reader, callback error values from the standard library, a file system that runs full, and an input that goes quiet (idle pipe) while the context is cancelled. Callbacks that end their goroutine (runtime.Goexit) or call the library on the same tree; the deprecated aliases as entry points.",
+            "Every massive-mode call runs in a worker with a hang watchdog (blocked-goroutine confirmation) and a goroutine-leak scan; documents with 0..12 failing blocks at drawn stages x reader/writer/callback failure at an index x cancellation (before, inside the Read crossing byte k, timer, deadline, at a write, at a callback) x perturbed schedules. Enumerated: every cancel offset, reader offset, writer index and callback index of a panel of documents. The same scenarios under -race. Also worker processes started with GOMAXPROCS=1 and confined to one CPU (taskset), readers that are io.Closer / *bufio.Reader, callback error values from the standard library, a file system that runs full, and an input that goes quiet (idle pipe) while the context is cancelled. Callbacks that end their goroutine (runtime.Goexit) or call the library on the same tree; the deprecated aliases as entry points. Half of the cancellable contexts carry a cause of the caller's own (the call must return the context's error).",
             "schedules are perturbed, not enumerated: a leak or race needing an interleaving outside the reach of GOMAXPROCS/delay perturbation can be missed; the race detector only sees executed accesses; 'bounded time' = 20 s watchdog + identical blocked stacks",
             "fault injection / fault enumeration over generated inputs: every byte offset and write index, cancellation points, goroutine-leak scan, race detector"),
     "C12": ("exploration",
